@@ -1,0 +1,117 @@
+//go:build verif
+
+package ocsp
+
+// Machine-checked contracts for package revocation/internal/ocsp (checked by /verif/govc; comment-only file).
+// Properties C04, C06, C11, C12.
+
+//@ import "crypto/x509"
+//@ import "crypto/x509/pkix"
+//@ import "time"
+//@ import "net/url"
+//@ import "strings"
+//@ import "errors"
+//@ import xocsp "golang.org/x/crypto/ocsp"
+//@ import "github.com/notaryproject/notation-core-go/revocation/result"
+
+// ---- stmt C04
+// "whose signature verifies under the issuer's key or under a certificate the issuer issued and authorised for OCSP signing"
+//@ stmt spec func HasOCSPSigningEKU(c *x509.Certificate) bool { exists k :: 0 <= k && k < len(c.ExtKeyUsage) && c.ExtKeyUsage[k] == x509.ExtKeyUsageOCSPSigning }
+//@ stmt spec func AuthorisedOCSPSigner(r *xocsp.Response, iss *x509.Certificate) bool {
+//@     (r.Certificate == nil && RespSignedByKeyOf(r, iss)) ||
+//@     (r.Certificate != nil && RespSignedByKeyOf(r, r.Certificate) && Signed(r.Certificate, iss) &&
+//@         (r.Certificate.Equal(iss) || HasOCSPSigningEKU(r.Certificate))) }
+// "a successful response for that certificate's serial number whose next-update time has not passed"
+//@ stmt spec func CurrentFor(r *xocsp.Response, c *x509.Certificate, iss *x509.Certificate) bool {
+//@     r != nil && r.SerialNumber != nil && bigval(r.SerialNumber) == bigval(c.SerialNumber) && AuthorisedOCSPSigner(r, iss) && !time.Now().After(r.NextUpdate) }
+// "Revoked with an invalidity date later than a supplied signing time": the date is carried by the response's
+// invalidity-date extension, decoded by asn1 (abstract decoder AsnTime) with no trailing bytes
+//@ stmt spec func ExcusedByInvalidityDate(r *xocsp.Response, t time.Time) bool {
+//@     !t.IsZero() && r.Status == xocsp.Revoked &&
+//@     (exists k :: 0 <= k && k < len(r.Extensions) && r.Extensions[k].Id.String() == invalidityDateOID &&
+//@          AsnTimeOK(r.Extensions[k].Value) && AsnRestLen(r.Extensions[k].Value) == 0 && t.Before(AsnTime(r.Extensions[k].Value))) }
+//@ stmt spec func IsHTTP(server string) bool { url.Parse(server).err == nil && strings.EqualFold(url.Parse(server).result0.Scheme, "http") }
+// stmt C04: the evidence behind OK from one responder
+//@ stmt spec func OKEvidence(c *x509.Certificate, iss *x509.Certificate, server string, t time.Time) bool {
+//@     IsHTTP(server) && (exists r *xocsp.Response :: CurrentFor(r, c, iss) && (r.Status == xocsp.Good || ExcusedByInvalidityDate(r, t))) }
+//@ stmt spec func RevokedEvidence(c *x509.Certificate, iss *x509.Certificate, server string, t time.Time) bool {
+//@     IsHTTP(server) && (exists r *xocsp.Response :: CurrentFor(r, c, iss) && r.Status == xocsp.Revoked) }
+//@ spec func IsUnknownStatus(e error) bool { errors.Is(e, box(UnknownStatusErrorValue())) }
+//@ abstract func UnknownStatusErrorValue() UnknownStatusError
+
+//@ func Supported(cert)
+//@   ensures [def] result <==> (cert != nil && len(cert.OCSPServer) > 0)
+//@   pure
+
+//@ func isAuthorizedResponder(responder)
+//@   requires responder != nil
+//@   ensures [iff] result <==> HasOCSPSigningEKU(responder)
+//@   loop 0
+//@     invariant forall k :: 0 <= k && k < it ==> responder.ExtKeyUsage[k] != x509.ExtKeyUsageOCSPSigning
+//@   pure
+
+// error classes (C06): OK only for nil, NonRevokable only for NoServerError, Revoked only for RevokedError
+//@ func toServerResult(server, err)
+//@   ensures [fresh] result != nil && fresh(result) && result.Server == server && result.RevocationMethod == result.RevocationMethodOCSP
+//@   ensures [ok] result.Result == result.ResultOK <==> err == nil
+//@   ensures [nonrevokable] result.Result == result.ResultNonRevokable <==> typeof(err) == type(NoServerError)
+//@   ensures [revoked] result.Result == result.ResultRevoked <==> typeof(err) == type(RevokedError)
+//@   ensures [unknown] (err != nil && typeof(err) != type(NoServerError) && typeof(err) != type(RevokedError)) ==> result.Result == result.ResultUnknown
+//@   ensures [error] (err != nil && typeof(err) != type(NoServerError)) ==> result.Error == err
+//@   ensures [noerror] (err == nil || typeof(err) == type(NoServerError)) ==> result.Error == nil
+
+//@ func serverResultsToCertRevocationResult(serverResults)
+//@   requires len(serverResults) > 0 && serverResults[len(serverResults)-1] != nil
+//@   ensures [fresh] result != nil && fresh(result) && result.ServerResults == serverResults && result.RevocationMethod == result.RevocationMethodOCSP
+//@   ensures [last] result.Result == serverResults[len(serverResults)-1].Result
+
+//@ func postRequest(ctx, req, server, httpClient)
+//@   requires httpClient != nil
+//@   calls Client.Do
+//@   ensures [one-exchange] ncalls(Client.Do) <= old(ncalls(Client.Do)) + 1
+//@   ensures [shape] err == nil ==> result != nil && result.Body != nil && ncalls(Client.Do) == old(ncalls(Client.Do)) + 1
+//@   ensures [external-error] err != nil ==> ExternalDyn(typeof(err))
+
+// one HTTP exchange for (cert, issuer); every failure is an error that is none of the decisive classes
+//@ func executeOCSPCheck(ctx, cert, issuer, server, opts)
+//@   requires cert != nil && issuer != nil && opts.HTTPClient != nil
+//@   calls Client.Do
+//@   ensures [one-exchange] ncalls(Client.Do) <= old(ncalls(Client.Do)) + 1
+//@   ensures [ok=>authentic] err == nil ==> result != nil && RespAuthentic(result, cert, issuer) && ncalls(Client.Do) == old(ncalls(Client.Do)) + 1
+//@   ensures [err=>not-decisive] err != nil ==> typeof(err) != type(NoServerError) && typeof(err) != type(RevokedError) && typeof(err) != type(UnknownStatusError)
+
+//@ func extensionsToMap(extensions)
+//@   ensures [fresh] result != nil && fresh(result)
+//@   ensures [from-extension] forall key string :: has(result, key) ==> (exists k :: 0 <= k && k < len(extensions) && extensions[k].Id.String() == key && result[key] == extensions[k].Value)
+//@   loop 0
+//@     invariant extensionMap != nil && fresh(extensionMap)
+//@     invariant forall key string :: has(extensionMap, key) ==> (exists k :: 0 <= k && k < it && extensions[k].Id.String() == key && extensionMap[key] == extensions[k].Value)
+
+//@ func checkStatusFromServer(ctx, cert, issuer, server, opts)
+//@   props C04 C06
+//@   requires cert != nil && issuer != nil && opts.HTTPClient != nil && cert.SerialNumber != nil
+//@   calls Client.Do
+//@   ensures [fresh] result != nil && fresh(result) && result.Server == server && result.RevocationMethod == result.RevocationMethodOCSP
+//@   ensures [class] result.Result == result.ResultOK || result.Result == result.ResultRevoked || result.Result == result.ResultUnknown
+//@   ensures [ok=>evidence] result.Result == result.ResultOK ==> result.Error == nil && OKEvidence(cert, issuer, server, opts.SigningTime) && ncalls(Client.Do) == old(ncalls(Client.Do)) + 1
+//@   ensures [revoked=>evidence] result.Result == result.ResultRevoked ==> RevokedEvidence(cert, issuer, server, opts.SigningTime) && !IsUnknownStatus(result.Error)
+//@   ensures [unknown=>error] result.Result == result.ResultUnknown ==> result.Error != nil
+//@   ensures [unknown-status=>answer] (result.Result == result.ResultUnknown && typeof(result.Error) == type(UnknownStatusError)) ==> IsHTTP(server) && (exists r *xocsp.Response :: CurrentFor(r, cert, issuer) && r.Status != xocsp.Good && r.Status != xocsp.Revoked)
+//@   ensures [one-exchange] ncalls(Client.Do) <= old(ncalls(Client.Do)) + 1
+
+// stmt C04 + C12 shape: servers tried in order; the first decisive answer is the only server result
+//@ func CertCheckStatus(ctx, cert, issuer, opts)
+//@   props C04 C06 C11 C12
+//@   requires issuer != nil && opts.HTTPClient != nil
+//@   requires cert != nil ==> cert.SerialNumber != nil
+//@   calls Client.Do
+//@   ensures [fresh] result != nil && fresh(result) && result.RevocationMethod == result.RevocationMethodOCSP
+//@   ensures [unsupported] !Supported$(cert) ==> result.Result == result.ResultNonRevokable && len(result.ServerResults) == 1 && result.ServerResults[0] != nil && result.ServerResults[0].Result == result.ResultNonRevokable && ncalls(Client.Do) == old(ncalls(Client.Do))
+//@   ensures [class] Supported$(cert) ==> (result.Result == result.ResultOK || result.Result == result.ResultRevoked || result.Result == result.ResultUnknown)
+//@   ensures [ok=>evidence] result.Result == result.ResultOK ==> (exists k :: 0 <= k && k < len(cert.OCSPServer) && OKEvidence(cert, issuer, cert.OCSPServer[k], opts.SigningTime))
+//@   ensures [revoked=>evidence] result.Result == result.ResultRevoked ==> (exists k :: 0 <= k && k < len(cert.OCSPServer) && RevokedEvidence(cert, issuer, cert.OCSPServer[k], opts.SigningTime))
+//@   ensures [decisive=>single] (result.Result == result.ResultOK || result.Result == result.ResultRevoked) ==> len(result.ServerResults) == 1 && result.ServerResults[0] != nil && result.ServerResults[0].Result == result.Result && (exists k :: 0 <= k && k < len(cert.OCSPServer) && result.ServerResults[0].Server == cert.OCSPServer[k])
+//@   ensures [unknown=>shape] (Supported$(cert) && result.Result == result.ResultUnknown) ==> (len(result.ServerResults) == 1 && result.ServerResults[0] != nil && result.ServerResults[0].Result == result.ResultUnknown) || (len(result.ServerResults) == len(cert.OCSPServer) && (forall k :: 0 <= k && k < len(cert.OCSPServer) ==> result.ServerResults[k] != nil && result.ServerResults[k].Result == result.ResultUnknown && result.ServerResults[k].Server == cert.OCSPServer[k]))
+//@   loop 0
+//@     invariant cert != nil && len(serverResults) == len(cert.OCSPServer) && ocspURLs == cert.OCSPServer && fresh(serverResults)
+//@     invariant forall k :: 0 <= k && k < it ==> serverResults[k] != nil && serverResults[k].Result == result.ResultUnknown && serverResults[k].Server == cert.OCSPServer[k]
